@@ -9,6 +9,21 @@ static void *idle(void *a) {
   return 0;
 }
 int main(int argc, char **argv) {
+  if (argc > 2 && argv[1][0] == 'f') {
+    // "f N": wait for one byte on descriptor 0, then fork N children that sleep for ever (they start in this process's
+    // groups), then print "ready"
+    char c;
+    if (read(0, &c, 1) != 1) return 4;
+    int n = atoi(argv[2]);
+    for (int i = 0; i < n; i++) {
+      pid_t p = fork();
+      if (p < 0) return 5;
+      if (p == 0)
+        for (;;) pause();
+    }
+    if (write(1, "ready\n", 6) < 0) return 3;
+    for (;;) pause();
+  }
   int n = argc > 1 ? atoi(argv[1]) : 3;
   for (int i = 0; i < n; i++) {
     pthread_t t;
